@@ -157,7 +157,7 @@ namespace options
 
         for (int i = 1; i < argc; i++)
         {
-            args.emplace_back(argv[i]);
+            args.emplace_back(std::string(argv[i]), user_input::unchecked_t());
         }
 
         return parse(args);
@@ -197,6 +197,9 @@ namespace options
                 only_positionals_mode = true;
                 continue;
             }
+
+            // not a positional, so it has to be a well-formed argument
+            it->check_syntax();
 
             if (try_parse_as_option(get_all_options(), it, args.end()) ||
                 try_parse_as_option(get_all_multi_options(), it, args.end()) ||
